@@ -40,6 +40,8 @@ pub enum Call {
     Chdir,
     Getrandom,
     Clock,
+    /// flock(2): advisory locks (std's File::lock / try_lock)
+    Flock,
 }
 
 impl Call {
@@ -59,6 +61,7 @@ impl Call {
             Call::Mkdir => "mkdir",
             Call::Getcwd => "getcwd",
             Call::Chdir => "chdir",
+            Call::Flock => "flock",
             Call::Getrandom => "getrandom",
             Call::Clock => "clock",
         }
@@ -79,6 +82,7 @@ impl Call {
             "mkdir" => Call::Mkdir,
             "getcwd" => Call::Getcwd,
             "chdir" => Call::Chdir,
+            "flock" => Call::Flock,
             "getrandom" => Call::Getrandom,
             "clock" => Call::Clock,
             _ => return None,
@@ -724,6 +728,13 @@ pub unsafe extern "C" fn close(fd: c_int) -> c_int {
 #[no_mangle]
 pub unsafe extern "C" fn fsync(fd: c_int) -> c_int {
     fd_call(Call::Fsync, fd, 0, SITE_OTHER, &|| libc::syscall(libc::SYS_fsync, fd as c_long) as i64) as c_int
+}
+
+/// Advisory locks: the unchanged tree takes none; a tree that does meets "the lock is busy"
+/// (EWOULDBLOCK on a non-blocking request, EINTR on a blocking one) like any other fault.
+#[no_mangle]
+pub unsafe extern "C" fn flock(fd: c_int, op: c_int) -> c_int {
+    fd_call(Call::Flock, fd, op as i64, SITE_OTHER, &|| libc::syscall(libc::SYS_flock, fd as c_long, op as c_long) as i64) as c_int
 }
 
 #[no_mangle]
